@@ -1,14 +1,18 @@
 #!/usr/bin/env python3
 """Developer tool: file the confirmed seeded changes under /verif/seeded/<id>/<change>/.
-   tools/mkseeded.py <outroot (dirs out-Cxx/changeN)> <matrix_results.json>
+   tools/mkseeded.py <matrix_results.json> <outroot>[=<prefix>] ...   (dirs <outroot>/out-Cxx/changeN -> seeded/Cxx/<prefix>changeN)
 Each change keeps patch.diff, the demonstration (demo.cpp, demo.sh if any), the author's README.md and meta.json
 (property, what it needs to manifest, what was run to confirm it, which checks report it)."""
 import glob, json, os, re, shutil, sys
-outroot, matrix = sys.argv[1], json.load(open(sys.argv[2]))
+matrix = json.load(open(sys.argv[1]))
 V = os.path.dirname(os.path.dirname(os.path.abspath(__file__)))
-for d in sorted(glob.glob(os.path.join(outroot, "out-C*", "change*"))):
+dirs = []
+for a in sys.argv[2:]:
+    root, _, prefix = a.partition("=")
+    dirs += [(d, prefix) for d in sorted(glob.glob(os.path.join(root, "out-C*", "change*")))]
+for d, prefix in dirs:
     pid = re.search(r"out-(C\d\d)", d).group(1)
-    ch = os.path.basename(d)
+    ch = prefix + os.path.basename(d)
     conf = open(os.path.join(d, "CONFIRM.txt")).read().strip() if os.path.exists(os.path.join(d, "CONFIRM.txt")) else ""
     m = re.search(r"pristine_demo_exit=(\d+) patched_demo_exit=(\d+) ctest_exit=(\d+) \((.*)\)", conf)
     if not m:
@@ -16,12 +20,18 @@ for d in sorted(glob.glob(os.path.join(outroot, "out-C*", "change*"))):
         continue
     dst = os.path.join(V, "seeded", pid, ch)
     os.makedirs(dst, exist_ok=True)
-    for f in ("patch.diff", "demo.cpp", "demo.sh", "README.md"):
+    for f in ("patch.diff", "demo.cpp", "demo.sh", "README.md", "schema.xsd", "doc.xml", "ext.dtd"):
         if os.path.exists(os.path.join(d, f)):
             shutil.copy(os.path.join(d, f), os.path.join(dst, f))
+    if os.path.isdir(os.path.join(d, "files")):
+        shutil.copytree(os.path.join(d, "files"), os.path.join(dst, "files"), dirs_exist_ok=True)
     readme = open(os.path.join(d, "README.md")).read()
     title = readme.splitlines()[0].lstrip("# ").strip()
     sec = re.search(r"^##[^\n]*(?:needs|needed)[^\n]*manifest[^\n]*\n(.*?)(?=^## |\Z)", readme, re.S | re.M | re.I)
+    if not sec:
+        sec = re.search(r"^#+[^\n]*(?:manifest|trigger|needs)[^\n]*\n(.*?)(?=^#+ |\Z)", readme, re.S | re.M | re.I)
+    if not sec:
+        sec = re.search(r"(?:needs|manifest)[^\n]*:\*?\*?(.*?)(?=\n\n|\Z)", readme, re.S | re.I)
     needs = re.sub(r"\s+", " ", sec.group(1)).strip() if sec else ""
     row = matrix.get(d, {})
     caught = {}
